@@ -116,7 +116,7 @@ LiveAnn(y, sq, acc) == IF sq = << >> THEN acc ELSE LET s1 == Step1(y, Head(sq)) 
 
 RECURSIVE RecvAll(_, _, _)
 RecvAll(nn, p, ms) == IF ms = << >> THEN [n |-> nn, prs |-> p]
-                      ELSE LET r == Receive(nn, p, Head(ms)) IN RecvAll(r.n, r.prs, Tail(ms))
+                      ELSE LET r == Receive(nn, p, Head(ms)) IN RecvAll(HandleAll(r.n, r.queued), r.prs, Tail(ms))
 RECURSIVE DeliverAll(_, _, _)
 DeliverAll(y, ms, acc) == IF ms = << >> THEN [x |-> y, ann |-> acc]
                           ELSE LET d == Deliver(y, Head(ms)) IN DeliverAll(d.x, Tail(ms), acc \o d.ann)
@@ -198,15 +198,18 @@ PeerGetsVote ==
 
 \* the peer claims a majority it holds; the node records the claim and answers with VoteSetBits
 PeerClaims(y) == {MMaj23(y.h, r, t, VS(y, t, r).maj) : r \in {q \in y.cn.tracked : q = RoundOf(y)}, t \in {Prevote, Precommit}}
-AnswerOK(nn, m, a) ==          \* the answer shows exactly the node's votes for the claimed block (no answer across heights)
+\* the answer shows exactly the node's votes for the claimed block in the vote sets as they were when the claim arrived
+\* (nn = the node BEFORE the claim is handled; empty array if there is no entry for the block; no answer across heights)
+AnswerOK(nn, m, a) ==
   IF nn.h # m.h THEN a = << >> ELSE
+  LET ours == IF VoteSetTracked(nn, m) THEN ByBits(VS(nn, m.t, m.r), m.v) ELSE NilBA IN
   /\ Len(a) = 1 /\ a[1].k = "VSBits" /\ a[1].h = m.h /\ a[1].r = m.r /\ a[1].t = m.t /\ a[1].v = m.v
-  /\ a[1].bits = (IF VoteSetTracked(nn, m) THEN {Idx(v) : v \in CN!ByFor(VS(nn, m.t, m.r), m.v)} ELSE {})
+  /\ a[1].bits = (IF ours = NilBA THEN {} ELSE ours) /\ a[1].s = (IF ours = NilBA THEN 0 ELSE NVal)
 PeerClaim ==
   /\ env < EnvBudget
   /\ \E m \in {c \in PeerClaims(x) : c.v # None} :
        LET r == Receive(n, prs, m) IN
-       /\ n' = r.n /\ prs' = r.prs
+       /\ n' = HandleAll(r.n, r.queued) /\ prs' = r.prs
        /\ act' = [name |-> "peerclaim", node |-> act.node, peer |-> act.peer, mode |-> act.mode, sent |-> r.sent, ann |-> <<m>>]
   /\ env' = env + 1 /\ mid' = prs
   /\ UNCHANGED <<x, kv, kp, kprop, kh>>
@@ -239,7 +242,8 @@ StepOK ==
         \A k \in DOMAIN act'.sent : Truthful(n, act'.sent[k]) /\ ~Redundant(prs, act'.sent[k]) /\ Recorded(mid', act'.sent[k])
   /\ act'.name \in {"data", "votes", "maj23", "peertimeout", "peergetsvote"} =>
         \A k \in DOMAIN act'.ann : k = Len(act'.ann) \/ act'.ann[k + 1].k # "NRS" => AnnRecorded(prs', act'.ann[k])
-  /\ act'.name = "peerclaim" => AnswerOK(n', act'.ann[1], act'.sent)
+  \* ... and the claim itself reaches the vote sets only through the queue (Receive leaves the node's state alone)
+  /\ act'.name = "peerclaim" => AnswerOK(n, act'.ann[1], act'.sent) /\ Receive(n, prs, act'.ann[1]).n = n
 StepProps == [][StepOK]_vars
 
 \* GossipComplete, liveness form (no starvation under weak fairness of the three routines)
